@@ -5,6 +5,7 @@ import (
 	"errors"
 	"github.com/LemoFoundationLtd/lemochain-core/common"
 	"github.com/LemoFoundationLtd/lemochain-core/common/crypto"
+	"math/big"
 )
 
 var (
@@ -35,6 +36,14 @@ func recoverSigners(sigHash common.Hash, sigs [][]byte) ([]common.Address, error
 	}
 	signers := make([]common.Address, length, length)
 	for i := 0; i < length; i++ {
+		// Only the canonical (low s) form of a signature is valid. The other form recovers to the same key, so it would give the same transaction another hash
+		if len(sigs[i]) == TxSigLength {
+			r := new(big.Int).SetBytes(sigs[i][:32])
+			s := new(big.Int).SetBytes(sigs[i][32:64])
+			if !crypto.ValidateSignatureValues(sigs[i][64], r, s) {
+				return nil, ErrInvalidSig
+			}
+		}
 		// recover the public key from the signature
 		pub, err := crypto.Ecrecover(sigHash[:], sigs[i])
 		if err != nil {
